@@ -423,12 +423,28 @@ def check_schedule(case):
 
 COMPOSE_PAIRS = [("xcopy5", "xcopy5"), ("xcopy4", "xcopy4"), ("prout", "prout"), ("mode10", "mode6"), ("xcopy5", "prout")]
 COMPOSE_VALUES = {
-    "xcopy5": [{"priority": 1, "immed": 1, "list_identifier": 0x11223344, "inline_data": bytearray(b"abcd")},
+    # (descriptor types and device types are given by name in one thread and by code in the other: the
+    # name look-ups run concurrently)
+    "xcopy5": [{"priority": 1, "immed": 1, "list_identifier": 0x11223344, "inline_data": bytearray(b"abcd"),
+                "cscd_descriptor_list": [{"descriptor_type_code": "Identification Descriptor CSCD descriptor", "_pdt": 0,
+                                          "peripheral_device_type": "Direct access block device (e.g., magnetic disk)",
+                                          "cscd_descriptor_parameters": {"code_set": 1, "association": 0, "designator_type": 3,
+                                                                         "designator": {"naa": 5, "ieee_company_id": 0x123456,
+                                                                                        "vendor_specific_identifier": 0x1}}}],
+                "segment_descriptor_list": [{"descriptor_type_code": "block -> block", "_code": 2, "block_device_number_of_blocks": 3}]},
                {"priority": 6, "g_sense": 1, "list_identifier": 0x55667788, "sequential_striped": 1,
-                "segment_descriptor_list": [{"descriptor_type_code": 2, "_code": 2, "block_device_number_of_blocks": 9}]}],
-    "xcopy4": [{"priority": 1, "list_identifier": 0x34, "inline_data": bytearray(b"abcd")},
+                "segment_descriptor_list": [{"descriptor_type_code": "Copy from block device to block device", "_code": 2,
+                                             "block_device_number_of_blocks": 9}]}],
+    "xcopy4": [{"priority": 1, "list_identifier": 0x34, "inline_data": bytearray(b"abcd"),
+                "target_descriptor_list": [{"descriptor_type_code": "Identification descriptor target descriptor", "_pdt": 0,
+                                            "peripheral_device_type": "Block",
+                                            "target_descriptor_parameters": {"code_set": 1, "association": 0, "designator_type": 3,
+                                                                             "designator": {"naa": 5, "ieee_company_id": 0x123456,
+                                                                                            "vendor_specific_identifier": 0x1}}}],
+                "segment_descriptor_list": [{"descriptor_type_code": "block -> block", "_code": 2, "block_device_number_of_blocks": 3}]},
                {"priority": 6, "nrcr": 1, "list_identifier": 0x77,
-                "segment_descriptor_list": [{"descriptor_type_code": 2, "_code": 2, "block_device_number_of_blocks": 9}]}],
+                "segment_descriptor_list": [{"descriptor_type_code": "Copy from block device to block device", "_code": 2,
+                                             "block_device_number_of_blocks": 9}]}],
     "prout": [{"service_action": 0, "kw": {"reservation_key": 0x1111, "service_action_reservation_key": 0x2222}},
               {"service_action": 7, "scope": 0, "pr_type": 3, "kw": {"reservation_key": 0xAAAA, "relative_target_port_id": 5, "unreg": 1,
                                                                      "transport_id": {"protocol_id": 6, "tpid_format": 0, "sas_address": b"\x50" + bytes(7)}}}],
